@@ -135,6 +135,8 @@ SITES = [
          z=['self.open_outbound_streams', 'max_open_streams'], b=['stream_id not in self.streams']),
     dict(name='g_recv_headers_mcs', file=C, qual='H2Connection._receive_headers_frame', exc='TooManyStreamsError', ord=0,
          z=['self.open_inbound_streams', 'max_open_streams'], b=['frame.stream_id not in self.streams']),
+    dict(name='g_recv_headers_unpromised', file=C, qual='H2Connection._receive_headers_frame', exc='ProtocolError', ord=0,
+         z=['frame.stream_id', 'self.highest_inbound_stream_id'], b=['self.config.client_side', 'frame.stream_id not in self.streams']),
     dict(name='g_ping_len', file=C, qual='H2Connection.ping', exc='ValueError', ord=0,
          z=['len(opaque_data)'], b=['isinstance(opaque_data, bytes)']),
     dict(name='g_ack_sid', file=C, qual='H2Connection.acknowledge_received_data', exc='ValueError', ord=0,
